@@ -3,7 +3,7 @@
   Model: DtnVerif.Agent (Model/BpAgent.lean); helper lemmas in Lemmas/Agent.lean.
   Property theorems only.
 -/
-import DtnVerif.Lemmas.Agent
+import DtnVerif.Lemmas.AgentFwd
 namespace DtnVerif
 namespace Props
 namespace C10
@@ -257,6 +257,49 @@ theorem C10_repeat_refused_after_any_history (cfg : Cfg) (st : St) (now now' : N
   apply C10_seen_never_forgotten
   rw [recv_accepted cfg st now rx hacc, dispose_seen]
   exact List.mem_cons_self
+
+/-- **A failed forward does not block later bundles.** Whatever happens to the head of the
+    forwarding queue (no transmit route, no CL, fragmentation impossible, …) it leaves the queue;
+    the next idle `_do_fwd` acts on the NEXT bundle, and with a matching transmit route hands that
+    bundle — not the earlier one — to the convergence layer. -/
+theorem C10_later_forward_not_blocked (cfg : Cfg) (st : St) (now now' : Nat) (sp sp' : SendParams)
+    (c0 c1 : Ctr) (q : List Ctr) (hq : st.fwdQ = c0 :: c1 :: q)
+    (hr : sp'.txBits.any id = true) (hcl : sp'.clOk = true)
+    (hf : sp'.frag = .none ∨ sp'.frag = .raises) :
+    (doFwd cfg st now sp).1.fwdQ = c1 :: q
+    ∧ ∃ b, fwdOut cfg { (doFwd cfg st now sp).1 with fwdQ := q } now' sp' c1 = some b
+        ∧ Effect.tx b.enc ∈ (doFwd cfg (doFwd cfg st now sp).1 now' sp').2
+        ∧ ∀ d, Effect.tx d ∈ (doFwd cfg (doFwd cfg st now sp).1 now' sp').2 → d = b.enc := by
+  have hq1 : (doFwd cfg st now sp).1.fwdQ = c1 :: q := by rw [doFwd_fwdQ, hq]; rfl
+  obtain ⟨b, hb⟩ := fwdOut_isSome cfg { (doFwd cfg st now sp).1 with fwdQ := q } now' sp' c1 hr hcl hf
+  refine ⟨hq1, b, hb, doFwd_tx_of_fwdOut _ _ _ _ _ _ hq1 b hb, ?_⟩
+  intro d hd
+  obtain ⟨b', hb', rfl⟩ := doFwd_tx cfg _ now' sp' c1 q hq1 d hd
+  rw [hb] at hb'
+  cases hb'
+  rfl
+
+/-- **Finished once.** A bundle for the node's own endpoint that the administrative handler
+    deletes while it still carries 'deliver' (an ACME record nobody expects) is finished by the
+    'delete' branch alone: not delivered, not queued, at most one report. -/
+theorem C10_admin_delete_finished_once (cfg : Cfg) (st : St) (now : Nat) (rx : RxBundle)
+    (hacc : accepted cfg st rx) (hd : rx.primary.dest = cfg.nodeId)
+    (hf : isFragment rx.primary.flags = false) (hb : rx.bcb = .pass) (hi : rx.bib = .pass)
+    (ha : rx.adm = .delete) :
+    (∀ i, Effect.delivered i ∉ (recvBundle cfg st now rx).2)
+    ∧ (∀ i, Effect.queued i ∉ (recvBundle cfg st now rx).2)
+    ∧ ((recvBundle cfg st now rx).2.filter isReport).length ≤ 1 := by
+  refine ⟨?_, ?_, (C10_recv_report_once cfg st now rx).1⟩
+  · rw [recv_accepted cfg st now rx hacc, dispose_eff, rxChain_eq]
+    simp_all [Ctr.record, recordAct, hasAct, runChain, runStep, secStep, finishEff, Ctr.ident]
+    intro i; split <;> simp
+  · rw [recv_accepted cfg st now rx hacc, dispose_eff, rxChain_eq]
+    simp_all [Ctr.record, recordAct, hasAct, runChain, runStep, secStep, finishEff, Ctr.ident]
+    intro i; split <;> simp
+
+example : ∃ i rep rc, (recvBundle { nodeId := .dtn [1], rxRoutes := [] } {} 5
+      { primary := { dest := .dtn [1], src := .dtn [3], rpt := .dtn [4], ts := ⟨4, 0⟩, flags := 0x60022 },
+        blocks := [], adm := .delete }).2 = [.report i rep rc] := ⟨_, _, _, rfl⟩
 
 end C10
 end Props
